@@ -271,7 +271,16 @@ def m_item_save(it, st, args, info):
 def m_map_remove(it, st, args, info):
     ns = map_ns(it, st, args[0]); key = key_of(it, st, args[2])
     st.wver += 1
-    eff(st, ('remove', ns, key, None, None, info['site']))
+    # the in-memory record(s) of the map's value type held by the caller when the key is retired
+    cands = []
+    fr = info.get('frame'); targs = info.get('targs') or ()
+    vty = targs[-1] if targs else None
+    if fr is not None and vty:
+        for i, l in enumerate(fr.body['locals']):
+            if l['ty'] == vty:
+                v = st.mem.get((fr.uid, i))
+                if v is not None and v[0] != 'undef': cands.append(strip_named(it.deref(st, v)))
+    eff(st, ('remove', ns, key, ('tup', tuple(cands)), None, info['site']))
     return UNIT
 def m_map_update(it, st, args, info):
     # cw-storage-plus 1.1.0 path.rs: input = may_load(store)?; output = action(input)?; save(store,&output)?; Ok(output)
